@@ -421,8 +421,8 @@ def explore_pat(item):
                     rep.violation(f"C17|{name}|{'witness-not-reported' if want else 'counter-witness-reported'}|{label}", dict(case, got=base[1], want=want))
                     continue
                 rep.add("nontrivial", (name, label, word))
-            for (k, s) in ((0.5, 0), (4, 0), (1000, 0), (1, 5), (1, 1000)):
-                exact = (s == 0 and k in (0.5, 4))
+            for (k, s) in ((0.5, 0), (4, 0), (2.0 ** -14, 0), (1000, 0), (1, 5), (1, 1000)):
+                exact = (s == 0 and k in (0.5, 4, 2.0 ** -14))
                 if not exact and want is None:
                     continue  # borderline cases may legitimately flip under inexact arithmetic
                 g = call(fn, mkc(cs, k, s), index=i)
